@@ -187,6 +187,26 @@ def dualStep' (st : DualState) (toks : List String) : Option (DualState × Strin
     match Dual2.tryNew real ns cs hs with
     | some d => pure ({ st with vals := st.vals.insert id (.dual2 d), grp := st.grp.insert id g }, "ok")
     | none => pure (st, "err")
+  | "dualfrom" :: id :: other :: mode :: real :: rest => do
+    let id ← id.toNat?; let real ← parseF? real
+    let (ns, cs, tail) ← parseNamed? rest
+    let extra ← parseFs? tail
+    let ov ← match (← st.vals.get? (← other.toNat?)) with
+      | .dual d => some d.vars | .dual2 d => some d.vars | .f64 _ => none
+    let r := if mode == "n" then some (Dual.newFrom ov real ns) else Dual.tryNewFrom ov real ns (cs ++ extra)
+    match r with
+    | some d => pure ({ st with vals := st.vals.insert id (.dual d), grp := st.grp.insert id 0 }, fmtNum (.dual d))
+    | none => pure (st, "err")
+  | "dual2from" :: id :: other :: mode :: real :: rest => do
+    let id ← id.toNat?; let real ← parseF? real
+    let (ns, cs, tail) ← parseNamed? rest
+    let hs ← parseFs? tail
+    let ov ← match (← st.vals.get? (← other.toNat?)) with
+      | .dual d => some d.vars | .dual2 d => some d.vars | .f64 _ => none
+    let r := if mode == "n" then some (Dual2.newFrom ov real ns) else Dual2.tryNewFrom ov real ns cs hs
+    match r with
+    | some d => pure ({ st with vals := st.vals.insert id (.dual2 d), grp := st.grp.insert id 0 }, fmtNum (.dual2 d))
+    | none => pure (st, "err")
   | ["bin", op, i, j] => do
     let op ← parseBinOp? op; let i ← i.toNat?; let j ← j.toNat?
     let a ← st.vals.get? i; let b ← st.vals.get? j
